@@ -757,7 +757,7 @@ def run(run: Run):
     from .common import borrow
     from . import c09
     run.rule('C05.R8', 'a workbook set again is read, lexed and parsed again (setter raises the dirty flag unconditionally; shared with C09.R1)')
-    borrow(run, 'C05.R8', c09.r1, src)
+    borrow(run, 'C05.R8', c09.r1_any, src)
     run.rule('C05.R9', 'the tail pattern of every terminal accepts a tail that starts with blanks')
     run.guard('C05.R9', r9_tails_admit_blanks, run, src, g)
     run.rule('C05.R10', 'the lexer tries the token classes on the formula text itself (only blanks at the ends are stripped)')
